@@ -43,8 +43,11 @@ def shim_env(match, log, kill_at=0, torn=False):
     return env
 
 
-def writer_cmd(db, mode, sync, env):
-    return ["/usr/bin/env"] + env + [common.PYTHON, os.path.join(common.VERIF, "tools", "writer.py"), "crashtxn", db, mode, "3", sync]
+def writer_cmd(db, mode, sync, env, newdb=0):
+    w = os.path.join(common.VERIF, "tools", "writer.py")
+    if newdb:
+        return ["/usr/bin/env"] + env + [common.PYTHON, w, "crashnew", db, mode, "3", sync, str(newdb)]
+    return ["/usr/bin/env"] + env + [common.PYTHON, w, "crashtxn", db, mode, "3", sync]
 
 
 def parse_log(path, ps):
@@ -55,7 +58,7 @@ def parse_log(path, ps):
     return out
 
 
-def abstract_events(calls, ps, upto, torn_last, modified):
+def abstract_events(calls, ps, upto, torn_last, modified, orig_pages=1 << 30):
     """system calls 1..upto-1 completed (call `upto` cut short when torn_last) -> writer actions of Journal.tla"""
     evs = []
     rec = None           # page number of a record in progress, parts seen
@@ -98,14 +101,16 @@ def abstract_events(calls, ps, upto, torn_last, modified):
                     evs.append({"ev": "jhdr", "torn": torn})
         else:
             if c["op"] in ("pwrite", "write"):
-                evs.append({"ev": "dbwrite", "p": c["off"] // ps + 1, "torn": torn})
+                pno = c["off"] // ps + 1
+                evs.append({"ev": "dbwrite" if pno <= orig_pages else "dbappend", "p": pno, "torn": torn})
     if rec is not None:
         evs.append({"ev": "jrec", "p": rec, "torn": True})      # died between the parts of a record
     # the commit phase begins once every modified page is journaled and the last header is synced
     out, jr = [], set()
     placed = False
     for i, e in enumerate(evs):
-        if not placed and jr == modified and e["ev"] in ("dbwrite", "finalize"):
+        if not placed and jr == modified and e["ev"] in ("dbwrite", "finalize") and \
+                not any(x["ev"] in ("jrec", "jhdr", "jcount") for x in evs[i:]):
             # only after the header count of the last segment (sync mode) / immediately (nosync)
             out.append({"ev": "startcommit"})
             placed = True
@@ -118,6 +123,8 @@ def abstract_events(calls, ps, upto, torn_last, modified):
 def classify(rows):
     if rows is None:
         return "error"
+    if rows == "notable":
+        return "old"
     vs = [r for r in rows]
     if len(vs) != ROWS:
         return "mixed"
@@ -135,26 +142,32 @@ def sqlittle_rows(res):
     return out
 
 
-def run_config(v, h, d, ps, mode, sync, tier, rnd, tag):
+def run_config(v, h, d, ps, mode, sync, tier, rnd, tag, newdb=False):
     ensure_shim()
     cdir = os.path.join(d, tag)
     os.makedirs(cdir, exist_ok=True)
     base = os.path.join(cdir, "base", "crash.db")
     os.makedirs(os.path.dirname(base), exist_ok=True)
-    base_db(base, ps, ROWS)
+    if newdb:
+        open(base, "wb").close()          # a brand-new (empty) database file
+    else:
+        base_db(base, ps, ROWS)
+    orig_pages = os.path.getsize(base) // ps
     # reference run: the complete syscall log
     ref = os.path.join(cdir, "ref")
     os.makedirs(ref)
     shutil.copy(base, os.path.join(ref, "crash.db"))
     log = os.path.join(ref, "log.txt")
-    rc, txt, _ = common.run(writer_cmd(os.path.join(ref, "crash.db"), mode, sync, shim_env("crash.db", log)), timeout=120)
+    rc, txt, _ = common.run(writer_cmd(os.path.join(ref, "crash.db"), mode, sync, shim_env("crash.db", log), ps if newdb else 0), timeout=120)
     if rc != 0:
         raise Infra("reference writer run failed: " + txt[-500:])
     calls = parse_log(log, ps)
     N = len(calls)
     if N < 10:
         raise Infra("the shim logged only %d calls: interposition does not work" % N)
-    modified = {c["off"] // ps + 1 for c in calls if c["file"] == "d" and c["op"] in ("pwrite", "write")}
+    written = {c["off"] // ps + 1 for c in calls if c["file"] == "d" and c["op"] in ("pwrite", "write")}
+    modified = {p for p in written if p <= orig_pages}
+    appended = {p for p in written if p > orig_pages}
     # crash points
     points = [(k, False) for k in range(1, N + 2)]
     points += [(k, True) for k in range(1, N + 1) if calls[k - 1]["op"] in ("pwrite", "write") and calls[k - 1]["len"] > 1]
@@ -167,35 +180,59 @@ def run_config(v, h, d, ps, mode, sync, tier, rnd, tag):
             if interesting or rnd.random() < 0.12:
                 keep.add((k, t))
         points = [p for p in points if p in keep]
-    batches, exps = [], []
+    batches, batches2, exps = [], [], []
     for (k, torn) in points:
         xd = os.path.join(cdir, "x%d%s" % (k, "t" if torn else ""))
         os.makedirs(xd)
         db = os.path.join(xd, "crash.db")
         shutil.copy(base, db)
         sel = {"op": "select", "table": "t", "cols": ["id", "v"]}
-        cmd = writer_cmd(db, mode, sync, shim_env("crash.db", os.path.join(xd, "log.txt"), k if k <= N else 0, torn))
+        cmd = writer_cmd(db, mode, sync, shim_env("crash.db", os.path.join(xd, "log.txt"), k if k <= N else 0, torn), ps if newdb else 0)
         i0 = len(exps) * 10
         # the handle opened before the crash has read the header and the schema; every other experiment it has
         # also read (and cached) the table itself
         warm = dict(sel, id=i0) if len(exps) % 2 == 0 else {"op": "columns", "table": "t", "id": i0}
-        batches.append({"db": db, "mode": "keep", "ops": [warm, {"op": "exec", "id": i0 + 1, "args": cmd}, dict(sel, id=i0 + 2)]})
-        batches.append({"db": db, "mode": "fresh", "ops": [dict(sel, id=i0 + 3)]})
-        exps.append({"k": k, "torn": torn, "dir": xd, "db": db, "i0": i0})
+        if newdb:
+            # nothing to open before the first transaction: only the crash, then a fresh handle
+            batches.append({"db": db, "mode": "keep", "ops": [{"op": "exec", "id": i0 + 1, "args": cmd}]})
+        else:
+            batches.append({"db": db, "mode": "keep", "ops": [warm, {"op": "exec", "id": i0 + 1, "args": cmd}, dict(sel, id=i0 + 2)]})
+        batches2.append({"db": db, "mode": "fresh", "ops": [dict(sel, id=i0 + 3)]})
+        exps.append({"k": k, "torn": torn, "dir": xd, "db": db, "i0": i0, "locked": len(exps) % 3 == 1})
     req, out = os.path.join(cdir, "req.ndjson"), os.path.join(cdir, "res.ndjson")
     common.write_ndjson(req, batches)
     rc, txt, _ = common.run([h, "ops", req, out], timeout=3000)
     if rc != 0:
         raise Infra("harness ops failed: " + txt[-2000:])
     res = {r["id"]: r for r in common.read_ndjson(out)}
+    # second phase: the images are read by a fresh handle; for every third image ANOTHER process (this one) holds a
+    # read lock on SQLite's shared byte range meanwhile -- a reader, not a writer: the journal stays hot
+    import fcntl
+    held = []
+    for x in exps:
+        if x["locked"] and os.path.exists(x["db"]):
+            fd = os.open(x["db"], os.O_RDWR)
+            fcntl.lockf(fd, fcntl.LOCK_SH, 510, 0x40000000 + 2, 0)
+            held.append(fd)
+    req2, out2 = os.path.join(cdir, "req2.ndjson"), os.path.join(cdir, "res2.ndjson")
+    common.write_ndjson(req2, batches2)
+    rc, txt, _ = common.run([h, "ops", req2, out2], timeout=3000)
+    for fd in held:
+        os.close(fd)
+    if rc != 0:
+        raise Infra("harness ops failed: " + txt[-2000:])
+    res.update({r["id"]: r for r in common.read_ndjson(out2)})
     lines = []
     info = []
     for x in exps:
-        warm = res[x["i0"]]
-        if warm.get("err"):
-            raise Infra("warm-up read failed: %r" % warm.get("err"))
-        aged = classify(sqlittle_rows(res[x["i0"] + 2]))
         fresh = classify(sqlittle_rows(res[x["i0"] + 3]))
+        if newdb:
+            aged = fresh
+        else:
+            warm = res[x["i0"]]
+            if warm.get("err"):
+                raise Infra("warm-up read failed: %r" % warm.get("err"))
+            aged = classify(sqlittle_rows(res[x["i0"] + 2]))
         # the k-th call really was the last one logged?
         got = parse_log(os.path.join(x["dir"], "log.txt"), ps) if os.path.exists(os.path.join(x["dir"], "log.txt")) else []
         if x["k"] <= N and len(got) != x["k"]:
@@ -211,10 +248,12 @@ def run_config(v, h, d, ps, mode, sync, tier, rnd, tag):
             rows = con.execute("SELECT id, v FROM t ORDER BY id").fetchall()
             con.close()
             sq = classify(rows)
+        except sqlite3.OperationalError as e:
+            sq = "old" if "no such table" in str(e) else "mixed"
         except sqlite3.DatabaseError as e:
             sq = "mixed"
         lines.append({"ev": "reset"})
-        lines += abstract_events(calls, ps, x["k"], x["torn"], modified)
+        lines += abstract_events(calls, ps, x["k"], x["torn"], modified, orig_pages)
         lines.append({"ev": "crash", "sqlittle": fresh, "aged": aged, "sqlite": sq})
         info.append((len(lines), x, fresh, aged, sq))
         shutil.rmtree(x["dir"], ignore_errors=True)
@@ -222,8 +261,8 @@ def run_config(v, h, d, ps, mode, sync, tier, rnd, tag):
     common.write_ndjson(f, lines)
     cfg = os.path.join(cdir, "TraceJournal_run.cfg")
     with open(cfg, "w") as fh:
-        fh.write("SPECIFICATION TJSpec\nCONSTANTS\n  Modified = {%s}\n  Mode = \"%s\"\n  NoSync = %s\nINVARIANT Track\nPOSTCONDITION Post\nCHECK_DEADLOCK FALSE\n"
-                 % (", ".join(map(str, sorted(modified))), mode, "TRUE" if sync == "OFF" else "FALSE"))
+        fh.write("SPECIFICATION TJSpec\nCONSTANTS\n  Modified = {%s}\n  Appended = {%s}\n  Mode = \"%s\"\n  NoSync = %s\nINVARIANT Track\nPOSTCONDITION Post\nCHECK_DEADLOCK FALSE\n"
+                 % (", ".join(map(str, sorted(modified))), ", ".join(map(str, sorted(appended))), mode, "TRUE" if sync == "OFF" else "FALSE"))
     r = common.tlc("TraceJournal", cfg="TraceJournal_run.cfg", files={f: "crash.ndjson", cfg: "TraceJournal_run.cfg"}, workers=1,
                    timeout=1800, name="c09-tlc-" + tag, heap="8g")
     v.add_tlc(r)
@@ -277,11 +316,15 @@ def run(tier):
     h = common.build_harness()
     if tier == "quick":
         configs = [(1024, "DELETE", "FULL"), (512, "PERSIST", "OFF"), (65536, "TRUNCATE", "FULL")]
+        newconfigs = [(1024, "DELETE", "FULL")]
     else:
         configs = [(ps, m, s) for ps in (512, 1024, 4096, 65536) for m in ("DELETE", "TRUNCATE", "PERSIST") for s in ("FULL", "OFF")]
+        newconfigs = [(ps, m, s) for ps in (512, 4096) for m in ("DELETE", "TRUNCATE", "PERSIST") for s in ("FULL", "OFF")]
     summ = []
     for ps, mode, sync in configs:
         summ.append(run_config(v, h, d, ps, mode, sync, tier, rnd, "ps%d-%s-%s" % (ps, mode, sync)))
+    for ps, mode, sync in newconfigs:
+        summ.append(run_config(v, h, d, ps, mode, sync, tier, rnd, "new-ps%d-%s-%s" % (ps, mode, sync), newdb=True))
     # the three prebuilt pairs of the repository
     for name, want_err in (("journal_hot", True), ("journal_persist", False), ("journal_truncate", False)):
         src = os.path.join(common.REPO, "testdata", name + ".sqlite")
